@@ -211,6 +211,9 @@ pub fn run_codecs(case: &Value, _seed: u64) -> Outcome {
             for &i in blanks.iter() { let mut m = t.clone(); m.replace_range(i..i + 1, &sub.to_string()); texts.push(m); }
             if blanks.len() > 1 { texts.push(t.replace(' ', &sub.to_string())); }
         }
+        // ... and with every digit run stretched to 25 times its length (numbers beyond u64 / u128: an error, never a panic)
+        let stretched: String = t.chars().map(|c| if c.is_ascii_digit() { c.to_string().repeat(25) } else { c.to_string() }).collect();
+        if stretched != t { texts.push(stretched); }
         for x in texts { feed_all(&mut o, &x, &feats); feed_templates(&mut o, &x, &feats); }
         o.sample = json!({"value": t, "calls": o.evals});
         return o;
